@@ -17,6 +17,8 @@ pub fn cke(out: &mut Vec<Sl>, c: &TlsClientKeyExchangeContents) {
     match c {
         TlsClientKeyExchangeContents::Dh(b) | TlsClientKeyExchangeContents::Unknown(b) => s(out, b),
         TlsClientKeyExchangeContents::Ecdh(p) => s(out, p.point),
+        #[allow(unreachable_patterns)]
+        _ => {}
     }
 }
 
@@ -49,6 +51,8 @@ pub fn hs(out: &mut Vec<Sl>, m: &TlsMessageHandshake) {
             s(out, n.selected_protocol);
             s(out, n.padding);
         }
+        #[allow(unreachable_patterns)]
+        _ => {}
     }
 }
 
@@ -58,6 +62,8 @@ pub fn msg(out: &mut Vec<Sl>, m: &TlsMessage) {
         TlsMessage::ChangeCipherSpec | TlsMessage::Alert(_) => {}
         TlsMessage::ApplicationData(d) => s(out, d.blob),
         TlsMessage::Heartbeat(h) => s(out, h.payload),
+        #[allow(unreachable_patterns)]
+        _ => {}
     }
 }
 
@@ -105,6 +111,8 @@ pub fn ext(out: &mut Vec<Sl>, e: &TlsExtension) {
         | TlsExtension::ExtendedMasterSecret
         | TlsExtension::PostHandshakeAuth
         | TlsExtension::NextProtocolNegotiation => {}
+        #[allow(unreachable_patterns)]
+        _ => {}
     }
 }
 
@@ -136,10 +144,14 @@ pub fn dtls_msg(out: &mut Vec<Sl>, m: &DTLSMessage) {
                 s(out, n.selected_protocol);
                 s(out, n.padding);
             }
+            #[allow(unreachable_patterns)]
+            _ => {}
         },
         DTLSMessage::ChangeCipherSpec | DTLSMessage::Alert(_) => {}
         DTLSMessage::ApplicationData(d) => s(out, d.blob),
         DTLSMessage::Heartbeat(h) => s(out, h.payload),
+        #[allow(unreachable_patterns)]
+        _ => {}
     }
 }
 
@@ -170,6 +182,8 @@ pub fn ec_params(out: &mut Vec<Sl>, p: &ECParameters) {
             s(out, e.order);
             s(out, e.cofactor);
         }
+        #[allow(unreachable_patterns)]
+        _ => {}
     }
 }
 
